@@ -58,7 +58,7 @@ class C16(Config):
               "Local Open Scope Z_scope.")
     bin = "c16"
     release_too = True
-    n_tags = 26
+    n_tags = 34
     classes = {}
     shard_size = 500
     rule = ("plan_denominations on an exhaustive lattice around every 1-2-5 denomination (+-1, +buffer, +fee) and on "
@@ -66,6 +66,8 @@ class C16(Config):
             "from a boundary set, under 7 oracle families (stub, constant/refusing, refuse-above-k, affine over-charge, "
             "by-length table, stateful by-call table, value-dependent) incl. answers up to usize::MAX; every case planned "
             "under two RNG seeds; the same lattice around every 1-2-5 value OUTSIDE [0.01, 10 000] ZEC up to MAX_MONEY; "
+            "CanonicalOneTwoFive::new with power-of-ten minimum 10^0..10^15, arbitrary maximum (also below the minimum, "
+            "non-1-2-5), caps 0..64 on a lattice of every 1-2-5 balance and random/structured balances; "
             "engine::plan_migration_with over ~650 wallets (exact-funding notes, fragmented, whale, dust) with the real "
             "preparation planner as oracle; plus largest_one_two_five, is_canonical_denomination and from_stored_parts lattices. "
             "distinct = distinct case lines; non-trivial = every line is an executed public API call with its outcome")
@@ -84,7 +86,7 @@ class C16(Config):
     ]
     partial_clauses = [
         "engine::plan_migration_with is driven (MockBackend wallets, default portfolio) but the real preparation planner is not modelled: its outcomes are compared with the model under the oracle that refuses every layout except the kept one; scheduling/anchor parts of the MigrationPlan belong to C17",
-        "CanonicalOneTwoFive::new with non-normative bounds is modelled (strategy record) but theorems and cases cover the ZIP 318 bounds used by plan_denominations/with_max_notes/recommended",
+        "CanonicalOneTwoFive::new is covered for power-of-ten minimum denominations (the constructor's documented MUST); a minimum that is not a power of ten (or 0, for which largest_one_two_five does not terminate) is outside theorems and harness",
     ]
 
     @staticmethod
